@@ -1594,15 +1594,15 @@ func genScenario(r *rand.Rand, id int, class string) *Scenario {
 	case "idle": // idle recycling: the idle timer of the pool is made to expire (read-only export hook: idleTimeout is a 3 min
 		// constant) while a trickle of calls is running: batchSendLoop marks the conn idle and returns, calls get
 		// "rpcClient is idle", the next call triggers recycleIdleConnArray (CloseAddrVer), later calls use a new pool. Every
-		// call must return exactly once. Only calls with a deadline (sync time-out / async context deadline): an async call
-		// WITHOUT deadline that is enqueued when the send loop exits on the idle timer is never completed (reported).
+		// call must return exactly once, also async calls without deadline that are enqueued just when the send loop exits on
+		// the idle timer (regression class for fix F40).
 		sc.NHosts = 1 + r.Intn(2)
 		sc.DelayUs, sc.Reorder = 200, 0
 		k := 40 + r.Intn(60)
 		for i := 0; i < k; i++ {
 			cs := CallerSpec{Host: r.Intn(sc.NHosts), Kind: r.Intn(4), TimeoutMs: 250, CancelUs: -1, StartUs: int64(i)*300 + r.Int63n(200), Async: r.Intn(2) == 0}
-			if cs.Async && os.Getenv("VERIF_C18_IDLE_NODEADLINE") == "1" {
-				cs.Long = true
+			if cs.Async && r.Intn(3) != 0 {
+				cs.Long = true // no deadline: must be failed ("rpcClient is idle" / "batchConn closed") or answered, never orphaned
 			}
 			sc.Callers = append(sc.Callers, cs)
 		}
@@ -1820,7 +1820,7 @@ func main() {
 			if json.Unmarshal(b, &sc) != nil {
 				continue
 			}
-			for rep := 0; rep < 2; rep++ {
+			for rep := 0; rep < 3; rep++ {
 				id++
 				s2 := sc
 				s2.ID, s2.Class = id, "corpus"
